@@ -75,8 +75,19 @@ def gen_acl(rng, tier, seed):
     ops = ops or [['pdu', 0, 0, 10]]
     bystander = rng.random() < 0.3
     if bystander:
-        # a second connection of node 0 (sharing its data packet queue) goes away while PDUs are queued / in flight
-        ops.insert(rng.randint(1, len(ops)), ['drop_other'])
+        if rng.random() < 0.5:
+            # a second connection of node 0 (sharing its data packet queue) goes away while PDUs are queued / in flight
+            ops.insert(rng.randint(1, len(ops)), ['drop_other'])
+        else:
+            # node 0 talks to both peers through the one queue: a PDU for the second peer right behind one for the first
+            c = ctrl[0]
+            F = c['acl_len'] if (transport == 'classic' or c['le_len'] == 0) else c['le_len']
+            for _ in range(rng.randint(1, 3)):
+                k = rng.randint(0, len(ops))
+                ops.insert(k, ['pdu_other', min(60000, rng.choice(_lens(rng, F) + [1, 10, 3 * F, 9 * F]))])
+                if rng.random() < 0.6:
+                    N = c['acl_num'] if (transport == 'classic' or c['le_len'] == 0) else c['le_num']
+                    ops.insert(k, ['pdu', 0, rng.randrange(4), min(60000, (N + rng.randint(0, 3)) * F + rng.randint(0, F))])
     return {
         'ctrl': ctrl, 'transport': transport, 'profile': rng.choice(PROFILE_NAMES),
         'refragment': [rng.choice([0, 0, 1, 5, 27, 100]) if faults_on else 0 for _ in range(2)],
@@ -94,11 +105,11 @@ class AclMonitor:
         self.chan_in = f'{node.name}.c2h'
         self.adv_len = adv_len
         self.adv_num = adv_num
-        self.handle = handle
+        self.handles = {handle}
         self.in_flight = 0
-        self.remaining = 0  # bytes of the current PDU still expected
+        self.remaining_by_handle = {}  # handle -> bytes of the current PDU still expected
         self.frag_counts = []
-        self.cur_frags = 0
+        self.cur_frags_by_handle = {}
         self.injecting = False
         sim.monitors.append(self.on_tap)
 
@@ -111,8 +122,10 @@ class AclMonitor:
                 self.sim.violation_once('aclhdr', 'acl:length-field-mismatch', f'data_total_length={ln} but {len(body)} bytes')
             if len(body) > self.adv_len:
                 self.sim.violation_once('acllen', 'acl:fragment-exceeds-controller-length', f'{len(body)} > advertised {self.adv_len}')
-            if handle != self.handle:
-                self.sim.violation_once('aclhandle', 'acl:wrong-handle', f'{handle:#x} != {self.handle:#x}')
+            if handle not in self.handles:
+                self.sim.violation_once('aclhandle', 'acl:wrong-handle', f'{handle:#x} not in {sorted(self.handles)}')
+            self.remaining = self.remaining_by_handle.get(handle, 0)
+            self.cur_frags = self.cur_frags_by_handle.get(handle, 0)
             if self.remaining == 0:
                 if pb not in (0, 2):
                     self.sim.violation_once('aclpb', 'acl:first-fragment-marked-continuation', f'pb={pb} on a first fragment')
@@ -131,6 +144,8 @@ class AclMonitor:
                 self.frag_counts.append(self.cur_frags)
                 if self.cur_frags > 1:
                     self.sim.probe('fragment_count>1')
+            self.remaining_by_handle[handle] = self.remaining
+            self.cur_frags_by_handle[handle] = self.cur_frags
             self.in_flight += 1
             if self.in_flight >= self.adv_num:
                 self.sim.probe('acl_buffers_full')
@@ -191,7 +206,7 @@ def run_acl(case):
             attrs.append(dict(attrs[1]))
         world = World(sim, nb, controller_attrs=attrs, classic=classic)
         world.power_on()
-        other = None
+        other = other0 = None
         if classic:
             got = []
             world[1].device.once('connection', got.append)
@@ -206,10 +221,11 @@ def run_acl(case):
                 sim.loop.drive(lambda: bool(got2), 10.0)
                 sim.loop.settle()
                 other = got2[0] if got2 else None
+                other0 = next((c for c in world[0].device.connections.values() if c is not c0), None)
         else:
             conns = list(world.connect_le(0, 1))
             if nb == 3:
-                other = world.connect_le(0, 2)[1]
+                other0, other = world.connect_le(0, 2)
         mons = []
         for i, nd in enumerate(world.nodes[:2]):
             c = case['ctrl'][i]
@@ -218,8 +234,10 @@ def run_acl(case):
             else:
                 L, N = c['le_len'], c['le_num']
             mons.append(AclMonitor(sim, nd, i, L, N, conns[i].handle))
-        received = [[], []]  # received[d] = PDUs that arrived at node d
-        for d in range(2):
+        received = [[], [], []]  # received[d] = PDUs that arrived at node d
+        if other0 is not None:
+            mons[0].handles.add(other0.handle)
+        for d in range(nb):
             def on_pdu(handle, cid, pdu, d=d):
                 if BASE_CID <= cid < BASE_CID + 16:
                     received[d].append((cid, bytes(pdu)))
@@ -227,7 +245,7 @@ def run_acl(case):
         for d in range(2):
             if case['refragment'][d]:
                 world[d].c2h.transform = _refragmenter(sim, case['seed'] ^ (d + 1), case['refragment'][d])
-        expected = [[], []]
+        expected = [[], [], []]
         counter = [0]
         shape = []
 
@@ -281,6 +299,13 @@ def run_acl(case):
                 expected[1 - d].append((cid, p))
                 world[d].host.send_l2cap_pdu(conns[d].handle, cid, p)
                 shape.append(('pdu', d))
+            elif op[0] == 'pdu_other':
+                if other0 is not None and other is not None:
+                    p = payload(op[1])
+                    expected[2].append((BASE_CID + 1, p))
+                    world[0].host.send_l2cap_pdu(other0.handle, BASE_CID + 1, p)
+                    sim.probe('pdu_for_second_peer_through_the_shared_queue')
+                    shape.append(('pdu_other',))
             elif op[0] == 'settle':
                 sim.loop.settle(vt_budget=600.0, step_budget=2_000_000)
             elif op[0] == 'drop_other':
@@ -298,7 +323,7 @@ def run_acl(case):
         if st != 'done':
             sim.violation_once('budget', f'acl:no-quiescence:{st}', 'transfer did not settle within the budget')
         faulty = any(o[0] == 'bad' for o in case['ops'])
-        for d in range(2):
+        for d in range(nb):
             exp, got = expected[d], received[d]
             # PDUs delivered on the fault CID must never appear (they are all malformed)
             leaked = [g for g in got if g[0] == BASE_CID + 9]
